@@ -822,7 +822,36 @@ def ev_tree(ident: int, c: Case) -> dict:
         t2 = _tree_of(kc.ty, kc.val)
         alone.append({'ty': kT, 'val': kv, 'tree': abstract_tree(t2) if t2 is not None else {'k': 'none'}})
     e['alone'] = alone
+    # history independence of the report itself: with the converter cache emptied, the same failure reports the same tree
+    if (ident + engine_seed()) % _FRESH_EVERY[0] == 0:
+        # a handler set nobody has used yet (a new, behaviourally empty handler): every converter of the tree is built
+        # anew for it, while the converters memoised for the plain call keep whatever history they have
+        def fresh_noop(ty, args, *, handlers):
+            return NotImplemented
+        try:
+            pane.from_data(c.val, c.ty, custom=fresh_noop)
+            t3 = None
+        except ConvertError as ex:
+            t3 = ex.tree
+        except Exception:  # noqa
+            t3 = None
+        e['fresh'] = 'T' if (abstract_tree(t3) if t3 is not None else {'k': 'none'}) == e['tree'] else 'F'
+        _FRESH_COUNT[0] += 1
+        if _FRESH_COUNT[0] % 4000 == 0:      # (the memo keeps every handler set alive: bound its growth)
+            try:
+                make_converter.cache.clear()
+            except Exception:  # noqa
+                pass
     return e
+
+
+_FRESH_EVERY = [4]
+_FRESH_COUNT = [0]
+
+
+def engine_seed() -> int:
+    from . import engine
+    return engine.seed()
 
 
 def ev_render(ident: int, c: Case) -> dict:
